@@ -1,6 +1,7 @@
 CONSTANTS
   V = {"start_nogate"}
   MaxN = 3
+  Vary = FALSE
 SPECIFICATION Spec
 INVARIANTS TypeOK StartOnlyAfterInit
 CHECK_DEADLOCK FALSE
